@@ -26,6 +26,15 @@ def shape_n(pid, macro, profile, gates, seed, heavy=False, cheap_later=False, at
         for b, d in enumerate(profile):
             for s in range(1, d):
                 styles[(b, s)] = "amap"
+    from . import profiles as _pf
+    _pf.STRIDE = 24 if max(profile) > 6 else 12
+    try:
+        return _shape_n(pid, macro, profile, gates, seed, heavy, cheap_later, styles, is_async, is_try, is_spawn, carrier)
+    finally:
+        _pf.STRIDE = 12
+
+
+def _shape_n(pid, macro, profile, gates, seed, heavy, cheap_later, styles, is_async, is_try, is_spawn, carrier):
     pp = PP(macro, profile, carrier=carrier, can_fail=is_try, gates=gates, styles=styles)
     text = pp.text()
     msg = lambda t: "\"C09[%s]: %s\"" % (pid, t)
@@ -175,7 +184,9 @@ def programs_nf(tier, seed):
     if tier == "quick":
         plan_n = [("join_async", (1, 1), 1, False, False), ("try_join_async", (1, 1), 1, False, False), ("join_async", (1, 1, 1), 1, False, False),
                   ("join_async_spawn", (1, 1), 1, False, False), ("try_join_async_spawn", (1, 1), 1, False, False), ("join_async", (2, 1), 1, False, True),
-                  ("join_async", (1,), 1, False, False), ("join_async", (2, 2), 1, False, "athen")]
+                  ("join_async", (1,), 1, False, False), ("join_async", (2, 2), 1, False, "athen"),
+                  # many steps: completion and wake-ups do not depend on how many steps there are (two-digit step numbers included)
+                  ("join_async", (10,), 1, True, True), ("try_join_async", (9, 10), 1, True, True)]
         plan_f = [("join_async", 2, False), ("try_join_async", 2, False)]
     else:
         plan_n = [("join_async", (1, 1), 2, False, False), ("try_join_async", (1, 1), 2, False, False), ("join_async", (1, 1, 1), 2, True, False), ("try_join_async", (1, 1, 1), 1, True, False),
@@ -184,7 +195,8 @@ def programs_nf(tier, seed):
                   ("join_async", (2, 1), 1, True, False), ("join_async", (2, 2), 1, True, True), ("try_join_async", (2, 1), 1, True, False), ("join_async", (1, 2), 1, True, False),
                   ("join_async", (1,), 2, False, False), ("join_async", (2,), 1, False, False),
                   ("join_async", (2, 2), 1, True, "athen"), ("join_async_spawn", (2, 2), 1, True, "athen"), ("try_join_async", (2, 2), 1, True, False), ("join_async", (1, 2, 2), 1, True, "athen"),
-                  ("join_async", (2, 2), 1, True, False)]
+                  ("join_async", (2, 2), 1, True, False),
+                  ("join_async", (10,), 1, True, True), ("try_join_async", (9, 10), 1, True, True), ("join_async_spawn", (11, 9), 1, True, True), ("join_async", (12, 3, 12), 1, True, True)]
         plan_f = [("join_async", 2, False), ("try_join_async", 2, False), ("join_async", 3, True), ("try_join_async", 3, True)]
     for macro, prof, gates, heavy, cheap in plan_n:
         i += 1
